@@ -49,6 +49,42 @@ Theorem C09_args_over : forall n c l v vs st,
 Proof. exact (fun n c l v vs st => form_over_exact src_flags n c l v vs st (eq_refl : kglambda_args_positional = true)). Qed.
 Print Assumptions C09_args_over.
 
+(* Multi-stage projections. merge_projections assembles the arguments POSITIONALLY: whatever the
+   number of stages and whichever slots each stage fills or leaves open, if every stage is written
+   position by position against the slots still open (entry n of a stage is omitted or is the
+   argument of the n-th open slot) then a complete merge is exactly the argument vector ... *)
+Theorem C09_merge_positional : forall s0 rest args vs,
+  Forall2 entry_ok s0 args -> chain_ok s0 args rest ->
+  all_some (merge (s0 :: rest)) = Some vs -> vs = args.
+Proof. exact (shaped merge_projections_positional (eq_refl : merge_projections_positional = true) merge_positional). Qed.
+Print Assumptions C09_merge_positional.
+
+(* ... so a Python callable reached through p::n(a;;); q::p(;c); q(b) (any chain) is applied exactly
+   once to exactly (a, b, c) ... *)
+Theorem C09_args_staged : forall st n c l s0 rest args vs,
+  NoDup l -> forallb xyz_name l = true -> sig_of c l -> c_lookup (scx st) n = Some (EPy c) ->
+  Forall2 entry_ok s0 args -> chain_ok s0 args rest -> length args = length l ->
+  all_some (merge (s0 :: rest)) = Some vs ->
+  run_form src_flags st n (FStaged (s0 :: rest)) = applied st c args.
+Proof.
+  exact (fun st n c l s0 rest args vs Hnd Hall Hs Hn =>
+    shaped merge_projections_positional (eq_refl : merge_projections_positional = true)
+      (staged_exact src_flags st n c l s0 rest args vs (eq_refl : kglambda_args_positional = true) Hnd Hall Hs Hn)).
+Qed.
+Print Assumptions C09_args_staged.
+
+(* ... and Each over a projection with one open slot applies it once per element to the assembled arguments. *)
+Theorem C09_args_staged_each : forall n c l stages (g : val -> list val) vs st,
+  NoDup l -> forallb xyz_name l = true -> sig_of c l -> c_lookup (scx st) n = Some (EPy c) ->
+  (forall v, all_some (merge (stages ++ [[Some v]])) = Some (g v) /\ length (g v) = length l) ->
+  staged_each_loop src_flags st n stages vs =
+    (mkState (scx st) (log st ++ map (fun v => (pid c, g v)) vs), Some (map (fun v => VPyRes (pid c) (g v)) vs)).
+Proof.
+  exact (fun n c l stages g vs st =>
+    staged_each_exact src_flags n c l stages g vs st (eq_refl : kglambda_args_positional = true)).
+Qed.
+Print Assumptions C09_args_staged_each.
+
 (* R14, the behaviour before the fix (declared names looked up through the whole scope stack):
    signature (x, z) applied to (1, 2) raises at top level and receives (1, 9) inside a function
    whose z is 9. *)
@@ -142,6 +178,52 @@ Theorem C09_import :
      call_lambda fl st (imported_pyc p n k) args = applied st (imported_pyc p n k) args).
 Proof. exact (conj import_lambda (conj import_lambda_klong (conj import_wildcard import_call_exact))). Qed.
 Print Assumptions C09_import.
+
+(* Imported callables (.py / .pyf): a module function with r <= 3 plain positional parameters of ANY
+   names, optionally preceded by klong, plain or wrapped by a functools.wraps decorator, is registered
+   with arity r, and applied by name to r arguments in ANY scope stack it is called exactly once with
+   exactly those arguments.  Closed by the translator's reading of follow_wrapped=True. *)
+Theorem C09_import_exact : forall it ps,
+  ireal it = ps -> Forall plainp ps -> (length ps <= 3)%nat ->
+  register import_follows_wrapped it = Some (ELam it (length ps) false false) /\
+  forall fl st n args, c_lookup (scx st) n = Some (ELam it (length ps) false false) -> length args = length ps ->
+    apply_name fl st n args = item_applied st it args.
+Proof.
+  exact (fun it ps => import_exact_plain import_follows_wrapped it ps (or_introl (eq_refl : import_follows_wrapped = true))).
+Qed.
+Print Assumptions C09_import_exact.
+
+Theorem C09_import_exact_klong : forall it kp ps,
+  ireal it = kp :: ps -> klongp kp -> Forall plainp ps -> (length ps <= 3)%nat ->
+  register import_follows_wrapped it = Some (ELam it (length ps) true false) /\
+  forall fl st n args, c_lookup (scx st) n = Some (ELam it (length ps) true false) -> length args = length ps ->
+    apply_name fl st n args = item_applied st it args.
+Proof.
+  exact (fun it kp ps => import_exact_klong import_follows_wrapped it kp ps (or_introl (eq_refl : import_follows_wrapped = true))).
+Qed.
+Print Assumptions C09_import_exact_klong.
+
+(* wildcard mode reads x, y, z through the whole scope stack: exact only when nothing outside the call frame binds them *)
+Theorem C09_wildcard_reads : forall args outer, (length args <= 3)%nat ->
+  c_lookup outer 0 = None -> c_lookup outer 1 = None -> c_lookup outer 2 = None ->
+  get_pos_wild (zip_frame xyz args :: outer) xyz = args.
+Proof. exact wild_toplevel. Qed.
+Print Assumptions C09_wildcard_reads.
+
+(* With follow_wrapped=False a decorated one-parameter function is registered as a wildcard callable;
+   called as f(1) inside a function whose frame holds x=1, y=2 it is handed (1, 2): a TypeError for
+   def f(x), silently wrong arguments for a callee that tolerates a second one. *)
+Theorem C09_import_refuted_without_follow_wrapped :
+  let px := mkIparam PX false KPosOrKw false in
+  let it := mkItem 9 [px] true in
+  let it2 := mkItem 10 [px; mkIparam PY false KPosOrKw true] true in
+  let caller := [(0, EData (VInt 1)); (1, EData (VInt 2))] in
+  register false it = Some (ELam it 0 false true) /\
+  (let st := mkState [caller; [(5, ELam it 0 false true)]] [] in
+   apply_name (mkFlags true true) st 5 [VInt 1] = (st, RErr)) /\
+  (let st := mkState [caller; [(5, ELam it2 0 false true)]] [] in
+   apply_name (mkFlags true true) st 5 [VInt 1] = item_applied st it2 [VInt 1; VInt 2]).
+Proof. vm_compute. repeat split; reflexivity. Qed.
 
 (* Non-vacuity: a callable (klong, z, x) called as f(1;2) inside a function whose frame holds
    x=7, y=8, z=9 receives (1, 2); each and over through names. *)
